@@ -250,6 +250,32 @@ def check_parts(W, rec, parts, boundary: str, paths=("events", "encode_multipart
             try:
                 r = b.get_request(Request)
                 _compare_form_files(rec, case, "builder_multipart", parts, r.form, r.files)
+                if len(parts) % 3 == 0:
+                    # the same data through the test client (Client.open -> EnvironBuilder -> the application's Request)
+                    # and through Request.from_values
+                    seen_c = {}
+
+                    def capture(environ, start_response):
+                        rq = Request(environ)
+                        seen_c["form"] = rq.form
+                        seen_c["files"] = DS.MultiDict((k_, DS.FileStorage(io.BytesIO(f_.stream.read()), filename=f_.filename, content_type=f_.content_type))
+                                                       for k_, f_ in rq.files.items(multi=True))
+                        start_response("200 OK", [])
+                        return [b""]
+
+                    data_c = {}
+                    for kind, name, filename, ctype, value in parts:
+                        data_c.setdefault(name, []).append((io.BytesIO(value), filename, ctype or "application/octet-stream") if kind == "file" else value)
+                    kwc = {"content_type": "multipart/form-data"} if not any(p[0] == "file" for p in parts) else {}
+                    T.Client(capture).post("/", data=data_c, **kwc).close()
+                    rec.observe("path:test_client")
+                    _compare_form_files(rec, dict(case, path="test_client"), "test_client", parts, seen_c["form"], seen_c["files"])
+                    data_v = {}
+                    for kind, name, filename, ctype, value in parts:
+                        data_v.setdefault(name, []).append((io.BytesIO(value), filename, ctype or "application/octet-stream") if kind == "file" else value)
+                    rv = Request.from_values(method="POST", data=data_v, **kwc)
+                    _compare_form_files(rec, dict(case, path="from_values"), "from_values", parts, rv.form, rv.files)
+                    rv.close()
                 if len(parts) % 2 == 0:
                     # history: a second builder is made from that request's environ and given other form data
                     # (re-sending a captured request with edited fields); the new request is described by the new data
@@ -364,6 +390,21 @@ def check_urlencoded(W, rec, pairs):
                 rec.violation("C02/urlencoded:args-differ", f"expected {exp!r} got {ga!r} qs={r.query_string!r}", case, monitor="roundtrip")
         finally:
             b.close()
+        if len(pairs) % 2:
+            # ... and through the test client
+            seen_c = {}
+
+            def capture(environ, start_response):
+                rq = Request(environ)
+                seen_c["form"] = [[k, v] for k, v in rq.form.items(multi=True)]
+                seen_c["args"] = [[k, v] for k, v in rq.args.items(multi=True)]
+                start_response("200 OK", [])
+                return [b""]
+
+            T.Client(capture).post("/p", data=DS.MultiDict(pairs), query_string=DS.MultiDict(pairs)).close()
+            rec.observe("path:test_client_urlencoded")
+            if seen_c.get("form") != exp or seen_c.get("args") != exp:
+                rec.violation("C02/test_client:urlencoded-differs", f"expected {exp!r} got form {seen_c.get('form')!r} args {seen_c.get('args')!r}", case, monitor="roundtrip")
 
 
 def concurrent_shared_parser(W, rec, rng, rounds, prefix="C02"):
